@@ -147,16 +147,18 @@ pub fn run(args: &Args) {
     silence_panics();
     let Some(shard) = shard_or_spawn("replay-jax", args) else { return };
     let prop = args.get("prop").unwrap_or("C09").to_string();
-    let (n_all, lines) = read_tlc_lines_sharded(args.req("in"), "REPLAY", shard);
+    let mut st = Stats::default();
+    let mut n_lines = 0usize;
+    // streamed: the thorough tier emits half a million file sets
+    let n_all = stream_tlc_lines_sharded(args.req("in"), "REPLAY", shard, |i, l| {
+        n_lines += 1;
+        guard_case(&mut st, &prop, "replay-jax", &l, |st| replay_line(st, &prop, i, &l));
+    });
     if n_all == 0 {
         eprintln!("no REPLAY lines");
         std::process::exit(2);
     }
-    let mut st = Stats::default();
-    for (i, l) in lines.iter().enumerate() {
-        guard_case(&mut st, &prop, "replay-jax", l, |st| replay_line(st, &prop, i, l));
-    }
-    finish(st, args.req("out"), args.req("replay-dir"), json!({"lines": lines.len()}));
+    finish(st, args.req("out"), args.req("replay-dir"), json!({"lines": n_lines}));
 }
 
 pub fn replay_one(v: &Value) -> bool {
